@@ -222,13 +222,17 @@ Definition check (a : list step) : bool :=
 
 Definition sym : list step := map (fun r => (r, [])) (0 :: alpha).
 
-Definition check_all : bool :=
-  check [] &&
-  forallb (fun x => check [x]) sym &&
-  forallb (fun x => forallb (fun y => check [x; y]) sym) sym &&
-  forallb (fun x => forallb (fun y => forallb (fun z => check [x; y; z]) sym) sym) sym.
+Lemma check_0 : check [] = true.
+Proof. vm_compute. reflexivity. Qed.
 
-Lemma check_all_true : check_all = true.
+Lemma check_1 : forallb (fun x => check [x]) sym = true.
+Proof. vm_compute. reflexivity. Qed.
+
+Lemma check_2 : forallb (fun x => forallb (fun y => check [x; y]) sym) sym = true.
+Proof. vm_compute. reflexivity. Qed.
+
+Lemma check_3 :
+  forallb (fun x => forallb (fun y => forallb (fun z => check [x; y; z]) sym) sym) sym = true.
 Proof. vm_compute. reflexivity. Qed.
 
 Lemma abs_step_in : forall s, In (abs_step s) sym.
@@ -239,10 +243,8 @@ Qed.
 
 Lemma check_abs : forall ss, check (abs ss) = true.
 Proof.
-  intros ss. pose proof check_all_true as H. unfold check_all in H.
-  apply andb_prop in H. destruct H as [H H3].
-  apply andb_prop in H. destruct H as [H H2].
-  apply andb_prop in H. destruct H as [H0 H1].
+  intros ss. pose proof check_0 as H0. pose proof check_1 as H1.
+  pose proof check_2 as H2. pose proof check_3 as H3.
   destruct ss as [|s0 [|s1 [|s2 t]]]; cbn [abs firstn map].
   - exact H0.
   - rewrite forallb_forall in H1. apply H1. apply abs_step_in.
